@@ -510,6 +510,106 @@ theorem registry_save_save_load_roundtrip (lenA lenB nodesB : Nat) (hB : 0 < len
     | succ n => rfl
   simp [saveSaveLoad, saveFile, h, registryLoad, hne]
 
+/-! ## wallets folder (ant-cli wallet/fs.rs), log format / destination -/
+
+/-- `get_wallet_files` / `filter_wallet_file_extension` / `list_wallets` / `select_wallet_address` /
+`load_private_key`: no panic site in the source (no slicing by byte offset, no unwrap); the listing is
+a total function of the directory entries and lists only UTF-8 names whose text, with the extension
+removed, is an address (40 hex digits, optional `0x`). -/
+theorem no_panic_wallet_files :
+    walletFilterSites = [] ∧ filterUsesReplace = true ∧ walletFilesSites = [] ∧ walletListSites = [] ∧
+    walletSelectAddressSites = [] ∧ selectSingleGuarded = true ∧ walletLoadKeySites = [] ∧
+    ∀ (names : List (Bytes × Bool)) (i : Nat), i ∈ walletFiles names →
+      ∃ n, names[i]? = some (n, true) ∧ isAddressHex (filterWalletExt n) = true := by
+  refine ⟨by decide, by decide, by decide, by decide, by decide, by decide, by decide, fun names i h => ?_⟩
+  unfold walletFiles at h
+  simp only [List.mem_filter, List.mem_range] at h
+  obtain ⟨_, h2⟩ := h
+  split at h2
+  · rename_i n utf8 hn
+    simp only [Bool.and_eq_true] at h2
+    obtain ⟨hu, hl⟩ := h2
+    subst hu
+    exact ⟨n, hn, hl⟩
+  · cases h2
+
+theorem no_panic_wallet_selection :
+    walletSelectionSites = [] ∧ ∀ (input : Bytes) (files : List Bytes), (walletSelection input files).isPanic = false := by
+  refine ⟨by decide, fun input files => ?_⟩
+  unfold walletSelection
+  cases uFromStr 64 input with
+  | none => rfl
+  | some idx =>
+    simp only [selectLowReject, selectHighReject, selectIndexExpr, Cmp.holds, AExp.eval, usub]
+    by_cases h1 : idx < 1
+    · simp [h1, Res.isPanic]
+    · by_cases h2 : idx > files.length
+      · simp [h2, Res.isPanic]
+      · have h3 : 1 ≤ idx := by omega
+        have h4 : idx - 1 < files.length := by omega
+        simp [h1, h2, h3, List.getElem?_eq_getElem h4, Res.isPanic]
+
+theorem no_panic_load_private_key (plainExists encExists utf8 : Bool) (content : Bytes)
+    (decrypt : Bytes → Res Unit Bytes) (hd : ∀ s, (decrypt s).isPanic = false) :
+    (loadPrivateKey plainExists encExists content utf8 decrypt).isPanic = false := by
+  unfold loadPrivateKey
+  simp only
+  split
+  · rfl
+  · split
+    · rfl
+    · split
+      · exact hd content
+      · rfl
+
+/-- `load_wallet_from_address`: the only panic site of the source is the `expect` on the EVM network
+taken from the environment (configuration, assumed set); whatever a wallet file holds — garbage, empty,
+non-UTF-8, a key or not — the result is a wallet or an error. -/
+theorem no_panic_load_wallet :
+    walletLoadFromAddressSites = ["expect"] ∧ loadWalletEnvExpected = true ∧ loadWalletKeyChecked = true ∧
+    ∀ (plainExists encExists utf8 : Bool) (content : Bytes) (decrypt : Bytes → Res Unit Bytes)
+      (keyOk : Bytes → Option Bytes), (∀ s, (decrypt s).isPanic = false) →
+      (loadWallet plainExists encExists content utf8 decrypt keyOk).isPanic = false := by
+  refine ⟨by decide, by decide, by decide, fun plainExists encExists utf8 content decrypt keyOk hd => ?_⟩
+  have hk : loadWalletKeyChecked = true := by decide
+  have h := no_panic_load_private_key plainExists encExists utf8 content decrypt hd
+  unfold loadWallet
+  generalize loadPrivateKey plainExists encExists content utf8 decrypt = r at h
+  cases r with
+  | panic p => simp [Res.isPanic] at h
+  | err e => rfl
+  | ok key =>
+    simp only
+    split
+    · rfl
+    · simp [hk, Res.isPanic]
+
+/-- A file that does not hold a private key never yields a wallet. -/
+theorem load_wallet_rejects_non_keys (plainExists encExists utf8 : Bool) (content : Bytes)
+    (decrypt : Bytes → Res Unit Bytes) (keyOk : Bytes → Option Bytes) (a : Bytes)
+    (h : loadWallet plainExists encExists content utf8 decrypt keyOk = .ok a) :
+    ∃ key, loadPrivateKey plainExists encExists content utf8 decrypt = .ok key ∧ keyOk key = some a := by
+  unfold loadWallet at h
+  cases hr : loadPrivateKey plainExists encExists content utf8 decrypt with
+  | panic p => simp [hr] at h
+  | err e => simp [hr] at h
+  | ok key =>
+    simp only [hr] at h
+    split at h
+    · rename_i addr hk
+      cases h
+      exact ⟨key, rfl, hk⟩
+    · split at h <;> cases h
+
+theorem no_panic_log_parsers :
+    logFormatSites = [] ∧ logDestSites = [] ∧
+    ∀ s : Bytes, (∃ n, logFormatParse s = some n ∧ n ∈ logFormatLiterals) ∨ logFormatParse s = none := by
+  refine ⟨by decide, by decide, fun s => ?_⟩
+  unfold logFormatParse
+  cases h : logFormatLiterals.find? fun l => bytesOf l == s with
+  | none => exact Or.inr rfl
+  | some n => exact Or.inl ⟨n, rfl, List.mem_of_find?_eq_some h⟩
+
 /-- `AttoTokens::from_str` (model, round trip and soundness: C16): a value or an error for every
 string, with both overflow-prone steps going through checked arithmetic. -/
 theorem no_panic_atto_tokens_from_str :
@@ -536,6 +636,15 @@ example : loadCache 1 10 (some [[(4294967295, 1, false), (4294967295, 1, false)]
 example : fromRecord [0x91, 3, 0] = .ok 3 := by decide
 example : fromRecord [0x91, 3] = .err () := by decide
 example : craft [.p2p, .ip4, .udp, .quic, .p2p] false = some [1, 2, 3, 0] := by decide
+example : walletListed (48 :: 120 :: List.replicate 40 97) = true := by decide
+example : walletListed (List.replicate 40 70) = true := by decide
+example : walletListed (48 :: 120 :: List.replicate 40 97 ++ walletExt) = true := by decide
+example : walletListed [46, 68, 83, 95, 83, 116, 111, 114, 101] = false := by decide
+example : walletListed (48 :: 120 :: List.replicate 39 97) = false := by decide
+example : walletFiles [([110, 111, 116, 101, 115], true), (48 :: 120 :: List.replicate 40 97, true),
+    (48 :: 120 :: List.replicate 40 98, false)] = [1] := by decide
+example : walletSelection [48] [[1]] = .err () := by decide
+example : walletSelection [49] [48 :: 120 :: 97 :: walletExt] = .ok [48, 120, 97] := by decide
 
 end SafeNet.Props.C17
 
@@ -571,5 +680,11 @@ end SafeNet.Props.C17
 #print axioms SafeNet.Props.C17.no_panic_craft_valid_multiaddr
 #print axioms SafeNet.Props.C17.no_panic_node_registry_load
 #print axioms SafeNet.Props.C17.no_panic_atto_tokens_from_str
+#print axioms SafeNet.Props.C17.no_panic_wallet_files
+#print axioms SafeNet.Props.C17.no_panic_wallet_selection
+#print axioms SafeNet.Props.C17.no_panic_load_private_key
+#print axioms SafeNet.Props.C17.no_panic_load_wallet
+#print axioms SafeNet.Props.C17.load_wallet_rejects_non_keys
+#print axioms SafeNet.Props.C17.no_panic_log_parsers
 #print axioms SafeNet.Props.C17.registry_save_replaces_file
 #print axioms SafeNet.Props.C17.registry_save_save_load_roundtrip
